@@ -259,6 +259,14 @@ fn exec(op: &str, args: &[Sexp]) -> Ans {
 			let Ok(s) = ObjClassName::try_from(tr!(s.as_jstring())) else { return Ans::err() };
 			Ans::Ok(Sexp::opt(s.split_inner_class_parent_and_name(), |(p, i)| Sexp::list(vec![Sexp::jstr(p.as_inner()), Sexp::jstr(i.as_inner())])))
 		}
+		// the two accessors must cut where `split_inner_class_parent_and_name` cuts (they are documented as its two halves)
+		("inner-parts", [s]) => {
+			let Ok(s) = ObjClassName::try_from(tr!(s.as_jstring())) else { return Ans::err() };
+			Ans::Ok(Sexp::list(vec![
+				Sexp::opt(s.get_inner_class_parent(), |p| Sexp::jstr(p.as_inner())),
+				Sexp::opt(s.get_inner_class_name(), |i| Sexp::jstr(i.as_inner())),
+			]))
+		}
 		("join", [p, i]) => {
 			let (Ok(p), Ok(i)) = (ObjClassName::try_from(tr!(p.as_jstring())), ObjClassName::try_from(tr!(i.as_jstring()))) else { return Ans::err() };
 			Ans::Ok(Sexp::jstr(ObjClassName::from_inner_class(p, &i).as_inner()))
@@ -562,6 +570,7 @@ fn gen(r: &mut Rng, tier: Tier, out: &mut Out) {
 			out.op("simple-name", &[Sexp::cps(n)]);
 			out.op("oracle-simple-name", &[Sexp::cps(n)]);
 			out.op("split", &[Sexp::cps(n)]);
+			out.op("inner-parts", &[Sexp::cps(n)]);
 			out.op("oracle-split-join", &[Sexp::cps(n)]);
 			out.op("oracle-from-class", &[Sexp::cps(n)]);
 		}
@@ -647,6 +656,7 @@ fn gen(r: &mut Rng, tier: Tier, out: &mut Out) {
 			out.op("oracle-name-spec", &[Sexp::tag(k), Sexp::cps(s)]);
 		}
 		out.op("split", &[Sexp::cps(s)]);
+		out.op("inner-parts", &[Sexp::cps(s)]);
 		out.op("simple-name", &[Sexp::cps(s)]);
 		out.op("oracle-simple-name", &[Sexp::cps(s)]);
 		out.op("arr-dimension", &[Sexp::cps(s)]);
@@ -664,6 +674,7 @@ fn gen(r: &mut Rng, tier: Tier, out: &mut Out) {
 		out.op("oracle-join-split", &[Sexp::cps(&p), Sexp::cps(&i)]);
 let mut s = p.clone(); s.push(0x24); s.extend(&i);
 		out.op("split", &[Sexp::cps(&s)]);
+		out.op("inner-parts", &[Sexp::cps(&s)]);
 		out.op("oracle-split-join", &[Sexp::cps(&s)]);
 	}
 }
